@@ -90,7 +90,7 @@ fn body(ctx: &mut Ctx) {
         let x = -BigInt::from(u.clone());
         for r in 2..=36u32 {
             let s = match guard(|| u.to_str_radix(r)) {
-                Ok(s) => s,
+                Ok(s) => clean_str(ctx, "BigUint::to_str_radix", s),
                 Err(m) => format!("PANIC {}", m),
             };
             let ok = parse_text(&s, r).map_or(false, |i| !i.neg && i.mag == *v);
@@ -98,7 +98,7 @@ fn body(ctx: &mut Ctx) {
             let back = guard(|| BigUint::from_str_radix(&s, r).ok().map(|y| nat_of(&y)));
             t.line(ctx, v.len() >= 2, back == Ok(Some(v.clone())), format!("from_str_radix {} {} -> {:?}", r, s.len(), back.map(|o| o.map(|n| n.to_hex()))));
             if r % 5 == 1 && !v.is_zero() {
-                let s = guard(|| x.to_str_radix(r)).unwrap_or_else(|m| format!("PANIC {}", m));
+                let s = guard(|| x.to_str_radix(r)).map(|s| clean_str(ctx, "BigInt::to_str_radix", s)).unwrap_or_else(|m| format!("PANIC {}", m));
                 let ok = parse_text(&s, r).map_or(false, |i| i.neg && i.mag == *v);
                 t.line(ctx, v.len() >= 2, ok, format!("BigInt::to_str_radix {} -{} -> {}", r, v.to_hex(), s));
             }
